@@ -278,8 +278,42 @@ func vShow(v interface{}) string {
 }
 
 // uninterpreted functions (natively: some fixed function)
-func vUF1[T vScalar](name string, x T) T    { return x }
-func vUF2[T vScalar](name string, x, y T) T { return x }
+// natively an arbitrary fixed non-identity function stands in for the uninterpreted one
+func vUF1[T vScalar](name string, x T) T { return vUFmix(x, x) }
+func vUF2[T vScalar](name string, x, y T) T { return vUFmix(x, y) }
+
+func vUFmix[T vScalar](x, y T) T {
+	var r T
+	switch p := any(&r).(type) {
+	case *int:
+		*p = any(x).(int)*3 + any(y).(int)*5 + 1
+	case *int8:
+		*p = any(x).(int8)*3 + any(y).(int8)*5 + 1
+	case *int16:
+		*p = any(x).(int16)*3 + any(y).(int16)*5 + 1
+	case *int32:
+		*p = any(x).(int32)*3 + any(y).(int32)*5 + 1
+	case *int64:
+		*p = any(x).(int64)*3 + any(y).(int64)*5 + 1
+	case *uint:
+		*p = any(x).(uint)*3 + any(y).(uint)*5 + 1
+	case *uint8:
+		*p = any(x).(uint8)*3 + any(y).(uint8)*5 + 1
+	case *uint16:
+		*p = any(x).(uint16)*3 + any(y).(uint16)*5 + 1
+	case *uint32:
+		*p = any(x).(uint32)*3 + any(y).(uint32)*5 + 1
+	case *uint64:
+		*p = any(x).(uint64)*3 + any(y).(uint64)*5 + 1
+	case *float32:
+		*p = any(x).(float32)*3 + any(y).(float32)*5 + 1
+	case *float64:
+		*p = any(x).(float64)*3 + any(y).(float64)*5 + 1
+	default:
+		r = x
+	}
+	return r
+}
 
 func vIsNaN(x float64) bool { return x != x }
 
